@@ -391,6 +391,11 @@ def resize (ns ne : Int) (s : Store) : Option Store :=
                   times := (s.times.take (bisectLeft s.times ne + 1)).drop (bisectLeft s.times ns),
                   slots := mapVals (fun v => shiftEnd b (shiftStart a v)) s.slots }
 
+/-- `set(variable, values, unit, ensemble_member)`: the member's dict must exist (`IndexError`
+    otherwise); the array is stored as given, whatever its length -/
+def setSeries (m : Nat) (e : Entry) (s : Store) : Option Store :=
+  if m < s.slots.length then some { s with slots := s.slots.modify m (upsert e) } else none
+
 /-- a sequence of `resize` calls -/
 def resizeSeq : List (Int × Int) → Store → Option Store
   | [], s => some s
